@@ -376,6 +376,13 @@ def r6_children_index(P, rep, ctx):
         init = [i for i, v, b in f.stores(f"self._children[{par}]") if norm(v) in ("set()", "set([])")]
         absent = f.tests(f"{par} not in self._children")
         ok2 = bool(init) and bool(absent) and f.all_hit_before(init, edges=absent, src=L)
+        # the recorded parent chain of an ancestor first seen here is the prefix of the path up to and including it
+        ix = norm(tgt.elts[0]) if isinstance(tgt, ast.Tuple) else None
+        pst = [(i, g.nodes[i].stmt.value) for i, v, b in f.stores(f"self._parents[{par}]")]
+        pst += [(i, c.args[1]) for i, c, b in f.call_sites(f"self._parents.setdefault({par}, __v)")]
+        okp = bool(pst) and ix is not None and all(norm(v) in (f"{ps}[:{ix} + 1]", f"{ps}[0:{ix} + 1]", f"list({ps}[:{ix} + 1])") for i, v in pst) and f.hit_before(L, nodes=[i for i, v in pst], edges=f.neg(f.tests(f"{par} not in self._parents")), src_edge=(L, "iter"))
+        rep.check(okp, "C07.R6", fi.qual, "an ancestor is recorded with its own parent chain (the path prefix ending in itself)", fi.loc(), construct="parents chain of ancestors",
+                  message=f"_update_parents_children records the parent chain of an ancestor as {[norm(v) for i, v in pst]} instead of {ps}[: i + 1]: a container whose only object has a child schema reports a truncated parent chain for the ancestor after reopening")
     else:
         ok2 = False
     rep.check(ok, "C07.R6", fi.qual, "on every registration the schema is recorded as child of each of its parents (independent of whether the parent entry existed)", fi.loc(), construct="children index update per parent",
